@@ -85,7 +85,7 @@ def build(dest, unit_ids=None):
         appends.setdefault(owner, [])
         decl = f'{CFG}\nmod {u["modname"]};'
         if u.get("pub_mod"):
-            decl = f'{CFG}\npub mod {u["modname"]};'
+            decl = f'{CFG}\npub(crate) mod {u["modname"]};'
         appends[owner].append(decl)
         # harness file location: next to the owner for mod.rs/lib.rs, else in <owner stem>/ directory
         odir, obase = os.path.split(owner)
